@@ -40,11 +40,19 @@ def zabs(t):
     return z3.If(t >= 0, t, -t)
 
 
+def _is0(e):
+    e = z3.simplify(e)
+    return z3.is_rational_value(e) and e.numerator_as_long() == 0
+
+
 def _pow2(x):
     if not isinstance(x, float) or x == 0:
         return False
     m, _e = math.frexp(abs(x))
     return m == 0.5
+
+
+BRANCH_ORACLE = [None]
 
 
 class ENum:
@@ -95,6 +103,8 @@ class ENum:
             return ENum(-b.val if sub else b.val, b.err)
         if (b.const == 0.0):
             return a
+        if _is0(a.err) and _is0(b.err):
+            return ENum(val, U)       # exact operands: one rounding (and no 0/0 when the sum vanishes)
         err = (zabs(a.val) * a.err + zabs(b.val) * b.err) / zabs(val) + U
         return ENum(val, err)
 
@@ -118,6 +128,28 @@ class ENum:
             return bool(self.const)
         raise EngineError("E-mode: branch on a computed value")
 
+    # comparisons of a computed value are answered by the analysis (one branch is analysed at a
+    # time; the oracle returns the branch taken and records what that means for the exact value)
+    def _cmp(self, op, o):
+        o = ENum.lift(o)
+        if self.const is not None and o.const is not None:
+            return {"lt": self.const < o.const, "le": self.const <= o.const, "gt": self.const > o.const, "ge": self.const >= o.const}[op]
+        if BRANCH_ORACLE[0] is None:
+            raise EngineError("E-mode: comparison of a computed value without a branch oracle")
+        return BRANCH_ORACLE[0](op, self, o)
+
+    def __lt__(self, o):
+        return self._cmp("lt", o)
+
+    def __le__(self, o):
+        return self._cmp("le", o)
+
+    def __gt__(self, o):
+        return self._cmp("gt", o)
+
+    def __ge__(self, o):
+        return self._cmp("ge", o)
+
     def __repr__(self):
         return f"ENum({self.val}, err={self.err})"
 
@@ -138,6 +170,15 @@ def e_exp(a):
     return ENum(_exp(a.val), zabs(a.val) * a.err + UF_ERR)
 
 
+_log = z3.Function("log", R, R)
+
+
+def e_log(a):
+    a = ENum.lift(a)
+    v = _log(a.val)
+    return ENum(v, a.err / zabs(v) + UF_ERR)            # kappa_log(a) = 1/|log a|
+
+
 def e_sqrt(a):
     a = ENum.lift(a)
     if a.const is not None:
@@ -153,7 +194,7 @@ def e_sqrt(a):
 
 class EMath:
     pi, tau, e = math.pi, math.tau, math.e
-    erf, erfc, exp, sqrt = staticmethod(e_erf), staticmethod(e_erfc), staticmethod(e_exp), staticmethod(e_sqrt)
+    erf, erfc, exp, sqrt, log = staticmethod(e_erf), staticmethod(e_erfc), staticmethod(e_exp), staticmethod(e_sqrt), staticmethod(e_log)
 
     def __getattr__(self, n):
         raise EngineError(f"E-mode: math.{n} not modelled")
